@@ -26,12 +26,15 @@ struct World {
     srcs: Vec<SrcState>,
     sinks: Vec<SinkState>,
     next_val: u32,
+    emitted: Vec<(usize, u32, bool)>, // (source, value, the (first) sink was live when it was emitted)
+    pull_mode: bool, // profile P: sources answer only against an outstanding Pull; the sink pulls only with none outstanding
+    sub_order: Vec<(usize, bool)>, // (source, was every earlier source ended when it was subscribed?)
     late: bool, // sources may defer their greeting (profile L)
     op_prop: Option<&'static str>, // the operator-specific property that also covers Pull routing
     cross: bool, // another member may act from inside a member's handler (members coupled behind the scenes)
 }
-struct SrcState { st: SrcSt, sink: Option<Sink>, subs: u32, err: Option<String>, name: String, emitted: u32 }
-struct SinkState { st: SinkSt, tb: Option<Tb>, data: Vec<u32>, err: Option<String>, name: String }
+struct SrcState { st: SrcSt, sink: Option<Sink>, subs: u32, err: Option<String>, name: String, emitted: u32, pulls: u32, answers: u32, greet_pulls: Option<u32> }
+struct SinkState { st: SinkSt, tb: Option<Tb>, data: Vec<u32>, err: Option<String>, name: String, pulls: u32, attach_at: usize }
 type W = Arc<Mutex<World>>;
 
 fn choose(w: &W, n: usize) -> usize {
@@ -61,20 +64,22 @@ impl std::error::Error for PuppetErr {}
 // ------------------------------------------------------------------ puppet source
 fn new_source(w: &W, name: &str) -> usize {
     let mut g = w.lock().unwrap();
-    g.srcs.push(SrcState { st: SrcSt::Idle, sink: None, subs: 0, err: None, name: name.to_string(), emitted: 0 });
+    g.srcs.push(SrcState { st: SrcSt::Idle, sink: None, subs: 0, err: None, name: name.to_string(), emitted: 0, pulls: 0, answers: 0, greet_pulls: None });
     g.srcs.len() - 1
 }
 /// one admissible event of source j (0 = nothing); returns false when it did nothing
 fn src_event(w: &W, j: usize, allow_nothing: bool) -> bool {
     let (st, sink) = { let g = w.lock().unwrap(); (g.srcs[j].st, g.srcs[j].sink.clone()) };
     if st != SrcSt::Live { return false; }
+    { let g = w.lock().unwrap(); if g.pull_mode && g.srcs[j].answers >= g.srcs[j].pulls { return false; } }
     let sink = sink.unwrap();
     let base = if allow_nothing { 0 } else { 1 };
     let c = choose(w, 4 - base) + base;
+    if c != 0 { w.lock().unwrap().srcs[j].answers += 1; }
     match c {
         0 => false,
         1 => {
-            let v = { let mut g = w.lock().unwrap(); g.next_val += 1; g.srcs[j].emitted += 1; g.next_val };
+            let v = { let mut g = w.lock().unwrap(); g.next_val += 1; g.srcs[j].emitted += 1; let v = g.next_val; let live = g.sinks.first().map(|s| s.st == SinkSt::Live).unwrap_or(false); g.emitted.push((j, v, live)); v };
             log(w, format!("{} -> Data({})", w.lock().unwrap().srcs[j].name.clone(), v));
             sink(Message::Data(v));
             true
@@ -114,7 +119,7 @@ fn src_greet(w: &W, j: usize) {
             log(&w, format!("{} <- {}", name, kind(&m)));
             match m {
                 Message::Pull => match st {
-                    SrcSt::Live => src_burst(&w, j),
+                    SrcSt::Live => { w.lock().unwrap().srcs[j].pulls += 1; src_burst(&w, j) }
                     SrcSt::Ended | SrcSt::Errored => {
                         violate(&w, "C04", format!("Pull sent to {} after it ended by itself{}", name, out));
                         let op_prop = w.lock().unwrap().op_prop;
@@ -134,7 +139,9 @@ fn src_greet(w: &W, j: usize) {
         }
     }.into());
     log(w, format!("{} -> Handshake", w.lock().unwrap().srcs[j].name.clone()));
+    let p0 = w.lock().unwrap().srcs[j].pulls;
     sink(Message::Handshake(tb));
+    { let mut g = w.lock().unwrap(); let d = g.srcs[j].pulls - p0; g.srcs[j].greet_pulls = Some(d); }
     src_burst(w, j);
 }
 fn puppet_source(w: &W, j: usize) -> Source<u32> {
@@ -145,6 +152,7 @@ fn puppet_source(w: &W, j: usize) -> Source<u32> {
             Message::Handshake(sink) => {
                 let prev_alive = { let g = w.lock().unwrap(); g.srcs[j].st == SrcSt::Live || g.srcs[j].st == SrcSt::Pending };
                 let (subs, late) = { let mut g = w.lock().unwrap(); g.srcs[j].subs += 1; g.srcs[j].sink = Some(sink); g.srcs[j].st = SrcSt::Pending; (g.srcs[j].subs, g.late) };
+                { let mut g = w.lock().unwrap(); let ok = g.srcs[..j].iter().all(|x| x.st == SrcSt::Ended); g.sub_order.push((j, ok)); }
                 log(&w, format!("{} <- subscribe", name));
                 if subs > 1 && prev_alive { violate(&w, "C04", format!("{} subscribed again while its previous subscription was still alive", name)); }
                 if late && choose(&w, 2) == 1 { log(&w, format!("{} defers its greeting", name)); return; }
@@ -158,7 +166,8 @@ fn puppet_source(w: &W, j: usize) -> Source<u32> {
 // ------------------------------------------------------------------ puppet sink
 fn new_sink(w: &W, name: &str) -> usize {
     let mut g = w.lock().unwrap();
-    g.sinks.push(SinkState { st: SinkSt::NotGreeted, tb: None, data: vec![], err: None, name: name.to_string() });
+    let at = g.emitted.len();
+    g.sinks.push(SinkState { st: SinkSt::NotGreeted, tb: None, data: vec![], err: None, name: name.to_string(), pulls: 0, attach_at: at });
     g.sinks.len() - 1
 }
 fn sink_action(w: &W, k: usize, allow_nothing: bool) -> bool {
@@ -170,7 +179,24 @@ fn sink_action(w: &W, k: usize, allow_nothing: bool) -> bool {
     let name = w.lock().unwrap().sinks[k].name.clone();
     match c {
         0 => false,
-        1 => { log(w, format!("{} -> Pull", name)); tb(Message::Pull); true }
+        1 => {
+            { let mut g = w.lock().unwrap(); if g.pull_mode && g.sinks[k].pulls as usize > g.sinks[k].data.len() { return false; } g.sinks[k].pulls += 1; }
+            log(w, format!("{} -> Pull", name));
+            let before: Vec<(SrcSt, u32)> = w.lock().unwrap().srcs.iter().map(|x| (x.st, x.pulls)).collect();
+            tb(Message::Pull);
+            // fan-in operators: the Pull reaches every member that was and still is running
+            let g = w.lock().unwrap();
+            let mut v = vec![];
+            if let Some(p) = g.op_prop { if p == "C08" || p == "C10" {
+                for (j, (st, n)) in before.iter().enumerate() {
+                    if *st == SrcSt::Live && g.srcs[j].st == SrcSt::Live && g.srcs[j].pulls == *n && g.sinks[k].st == SinkSt::Live {
+                        v.push((p, format!("the sink's Pull did not reach {}, which is running", g.srcs[j].name)));
+                    }
+                }
+            } }
+            drop(g);
+            for (p, what) in v { violate(w, p, what); }
+            true }
         2 => { w.lock().unwrap().sinks[k].st = SinkSt::Disposed; log(w, format!("{} -> Terminate", name)); tb(Message::Terminate); true }
         _ => { w.lock().unwrap().sinks[k].st = SinkSt::Disposed; log(w, format!("{} -> Error", name)); tb(Message::Error(Arc::new(PuppetErr(format!("err-{}", name))))); true }
     }
@@ -220,6 +246,70 @@ fn quiescent_checks(w: &W, single_sink: bool) {
             }
         }
     }
+    // C05: when a member failed, the members still subscribed are disposed
+    if single_sink && g.srcs.iter().any(|x| x.st == SrcSt::Errored) && g.srcs.iter().any(|x| x.st == SrcSt::Live) && !g.sinks.is_empty() && g.sinks[0].st != SinkSt::Live {
+        for src in &g.srcs { if src.st == SrcSt::Live { v.push(("C05", format!("{} is still live although a sibling failed and the output is over", src.name))); } }
+    }
+    drop(g);
+    for (p, what) in v { violate(w, p, what); }
+}
+
+/// the list function an operator scenario should compute (C07..C11), checked at quiescence:
+/// what the sink has received must be a prefix of it, and equal to it while the sink is still live
+fn functional_checks(w: &W, op: &str) {
+    let g = w.lock().unwrap();
+    if g.sinks.is_empty() { return; }
+    let sink = &g.sinks[0];
+    let ins: Vec<(usize, u32)> = g.emitted.iter().filter(|e| e.2).map(|e| (e.0, e.1)).collect();
+    let vals: Vec<u32> = ins.iter().map(|e| e.1).collect();
+    let base = op.trim_end_matches(|c| c == 'L' || c == 'X' || c == 'P');
+    let (prop, expected): (&str, Option<Vec<u32>>) = match base {
+        "map" => ("C07", Some(vals.iter().map(|x| x + 100).collect())),
+        "filter" => ("C07", Some(vals.iter().cloned().filter(|x| x % 2 == 0).collect())),
+        "scan" => ("C07", Some(vals.iter().scan(0u32, |a, x| { *a += x; Some(*a) }).collect())),
+        "take0" => ("C07", Some(vec![])),
+        "take1" => ("C07", Some(vals.iter().cloned().take(1).collect())),
+        "take2" => ("C07", Some(vals.iter().cloned().take(2).collect())),
+        "skip1" => ("C07", Some(vals.iter().cloned().skip(1).collect())),
+        "merge2" | "merge3" => ("C08", Some(vals.clone())),
+        "concat2" | "concat3" => ("C09", Some(vals.clone())),
+        "flatten" => ("C11", Some(ins.iter().filter(|e| e.0 != 0).map(|e| e.1).collect())),
+        "combine2" => {
+            // a value counts as a member's latest even when it was emitted before the sink was greeted
+            let (mut a, mut b, mut out) = (None, None, vec![]);
+            for (j, v, live) in g.emitted.iter() { if *j == 0 { a = Some(*v) } else { b = Some(*v) } if let (Some(x), Some(y), true) = (a, b, *live) { out.push(x * 1000 + y); } }
+            ("C10", Some(out))
+        }
+        _ => ("", None),
+    };
+    let mut v = vec![];
+    if let Some(exp) = expected {
+        let got = &sink.data;
+        let is_prefix = got.len() <= exp.len() && got[..] == exp[..got.len()];
+        if !is_prefix { v.push((prop, format!("the sink received {:?}, which is not a prefix of the expected {:?}", got, exp))); }
+        else if sink.st == SinkSt::Live && got.len() != exp.len() && !g.pull_mode { v.push((prop, format!("the sink has received {:?} but {:?} is due", got, exp))); }
+    }
+    // C09: member k+1 is subscribed only after member k completed
+    if base.starts_with("concat") {
+        for (j, ok) in &g.sub_order { if !ok { v.push(("C09", format!("{} was subscribed before the previous member completed", g.srcs[*j].name))); } }
+    }
+    // C11: an inner is pulled exactly once on greeting
+    if base == "flatten" {
+        for src in g.srcs.iter().skip(1) { if let Some(d) = src.greet_pulls { if d == 0 && src.st == SrcSt::Live && sink.st == SinkSt::Live { v.push(("C11", format!("{} was not pulled on greeting", src.name))); } } }
+    }
+    // C14 / C15 (pull mode): never more data than Pulls; with every source's answers given, none of the sink's Pulls is outstanding
+    if g.pull_mode {
+        if sink.data.len() > sink.pulls as usize { v.push(("C14", format!("the sink received {} data for {} Pulls", sink.data.len(), sink.pulls))); }
+        let all_answered = g.srcs.iter().all(|x| x.st != SrcSt::Live || x.answers >= x.pulls) && !g.srcs.iter().any(|x| x.st == SrcSt::Pending);
+        if sink.st == SinkSt::Live && all_answered && (sink.pulls as usize) > sink.data.len() && !g.srcs.is_empty() && g.srcs.iter().any(|x| x.st == SrcSt::Live || x.st == SrcSt::Idle) {
+            v.push(("C14", format!("a Pull of the sink is unanswered: {} Pulls, {} data, no upstream owes an answer", sink.pulls, sink.data.len())));
+        }
+    }
+    if base == "from_iter" {
+        let exp = [1u32, 2, 3];
+        if sink.data.len() > 3 || sink.data[..] != exp[..sink.data.len()] { v.push(("C15", format!("from_iter delivered {:?}", sink.data))); }
+        if sink.data.len() > sink.pulls as usize { v.push(("C15", format!("from_iter delivered {} items for {} Pulls", sink.data.len(), sink.pulls))); v.push(("C14", format!("from_iter delivered {} items for {} Pulls", sink.data.len(), sink.pulls))); }
+    }
     drop(g);
     for (p, what) in v { violate(w, p, what); }
 }
@@ -232,6 +322,12 @@ fn share_checks(w: &W) {
     let mut v = vec![];
     if attached == 0 && up_alive { v.push(("C12", "the upstream subscription is still alive although every sink has detached".to_string())); }
     if attached > 0 && !up_alive { v.push(("C12", "a sink is attached but no upstream subscription is alive".to_string())); }
+    // every attached sink has every datum emitted since it attached (nested fan-out, finding F4, reorders them: compare as sets there)
+    for s in g.sinks.iter().filter(|s| s.st == SinkSt::Live) {
+        let exp: Vec<u32> = g.emitted[s.attach_at.min(g.emitted.len())..].iter().map(|e| e.1).collect();
+        let mut a = s.data.clone(); a.sort(); let mut b = exp.clone(); b.sort();
+        if a != b && !(a.len() <= b.len() && b.ends_with(&a)) { v.push(("C12", format!("{} is attached and has received {:?} of the data {:?} emitted since it attached", s.name, s.data, exp))); }
+    }
     drop(g);
     for (p, what) in v { violate(w, p, what); }
 }
@@ -239,7 +335,8 @@ fn share_checks(w: &W) {
 // ------------------------------------------------------------------ scenarios
 fn build(op: &str, w: &W) -> Source<u32> {
     let mk = |n: &str| { let j = new_source(w, n); puppet_source(w, j) };
-    match op {
+    let base = op.trim_end_matches(|c| c == 'L' || c == 'X' || c == 'P');
+    match base {
         "map" => callbag::map(|x: u32| x + 100)(mk("a")),
         "filter" => callbag::filter(|x: &u32| x % 2 == 0)(mk("a")),
         "scan" => callbag::scan(|acc: u32, x: u32| acc + x, 0u32)(mk("a")),
@@ -247,12 +344,12 @@ fn build(op: &str, w: &W) -> Source<u32> {
         "take1" => callbag::take(1)(mk("a")),
         "take2" => callbag::take(2)(mk("a")),
         "skip1" => callbag::skip(1)(mk("a")),
-        "merge2" | "merge2L" | "merge2X" => callbag::merge!(mk("a"), mk("b")),
+        "merge2" => callbag::merge!(mk("a"), mk("b")),
         "merge3" => callbag::merge!(mk("a"), mk("b"), mk("c")),
         "concat0" => callbag::concat(Vec::<Source<u32>>::new().into_boxed_slice()),
         "concat2" => callbag::concat!(mk("a"), mk("b")),
         "concat3" => callbag::concat!(mk("a"), mk("b"), mk("c")),
-        "combine2" | "combine2X" => callbag::map(|(x, y): (u32, u32)| x * 1000 + y)(callbag::combine!(mk("a"), mk("b"))),
+        "combine2" => callbag::map(|(x, y): (u32, u32)| x * 1000 + y)(callbag::combine!(mk("a"), mk("b"))),
         "from_iter" => callbag::from_iter([1u32, 2, 3]),
         "flatten" => {
             // the outer is a puppet whose data are fresh puppet inner sources
@@ -265,7 +362,7 @@ fn build(op: &str, w: &W) -> Source<u32> {
 }
 struct Outcome { violations: Vec<(String, String)>, log: Vec<String>, exhausted: Option<usize>, panicked: Option<String> }
 fn run(op: &str, tape: &[u8]) -> Outcome {
-    let w: W = Arc::new(Mutex::new(World { tape: tape.to_vec(), late: op.ends_with('L'), cross: op.ends_with('X'), op_prop: if op.starts_with("merge") { Some("C08") } else if op.starts_with("combine") { Some("C10") } else if op.starts_with("concat") { Some("C09") } else if op.starts_with("flatten") { Some("C11") } else { None }, ..Default::default() }));
+    let w: W = Arc::new(Mutex::new(World { tape: tape.to_vec(), late: op.ends_with('L'), cross: op.ends_with('X'), pull_mode: op.ends_with('P'), op_prop: if op.starts_with("merge") { Some("C08") } else if op.starts_with("combine") { Some("C10") } else if op.starts_with("concat") { Some("C09") } else if op.starts_with("flatten") { Some("C11") } else { None }, ..Default::default() }));
     let r = catch_unwind(AssertUnwindSafe(|| {
         if op == "share2" || op == "share3" {
             let j = new_source(&w, "a");
@@ -297,6 +394,7 @@ fn run(op: &str, tape: &[u8]) -> Outcome {
         log(&w, "sink subscribes".into());
         source(Message::Handshake(puppet_sink(&w, k)));
         quiescent_checks(&w, true);
+        functional_checks(&w, op);
         for _ in 0..64 {
             let n = w.lock().unwrap().srcs.len();
             let c = choose(&w, 2 + n);
@@ -308,6 +406,7 @@ fn run(op: &str, tape: &[u8]) -> Outcome {
                 if st == SrcSt::Pending { src_greet(&w, j); } else { src_event(&w, j, false); }
             }
             quiescent_checks(&w, true);
+            functional_checks(&w, op);
         }
     }));
     let mut g = w.lock().unwrap_or_else(|e| e.into_inner());
